@@ -34,7 +34,7 @@ impl Prop for C09 {
         "model_checking"
     }
     fn rule(&self, _t: Tier) -> String {
-        "every string over the 21-symbol relation character-class alphabet up to the length bound, and every sequence of 20 multi-character relation tokens up to the token bound (full input tries; states = strings); each is parsed by parse_relaxed(_, false), parse_relaxed(_, true), Relations::from_str, Entry::from_str and Relation::from_str; every ordered pair of the three field readers is also run back to back on the same text and compared with the answers obtained in isolation (history independence); non-trivial = distinct string of the character space with >= 2 characters".into()
+        "every string over the 21-symbol relation character-class alphabet up to the length bound, and every sequence of 20 multi-character relation tokens up to the token bound (full input tries; states = strings), plus 12 fields per length with one token (name, blank run, version, list item, qualifier, substvar, line breaks, commas, non-ASCII run) stretched to 255 / 256 / 257 / 65535 / 65536 / 65537 characters; each is parsed by parse_relaxed(_, false), parse_relaxed(_, true), Relations::from_str, Entry::from_str and Relation::from_str; every ordered pair of the three field readers is also run back to back on the same text and compared with the answers obtained in isolation (history independence); non-trivial = distinct string of the character space with >= 2 characters".into()
     }
     fn bounds(&self, t: Tier) -> Value {
         json!({"spaces": rel_space(t).describe()})
@@ -46,10 +46,33 @@ impl Prop for C09 {
         ]
     }
     fn n_shards(&self, t: Tier) -> usize {
-        rel_space(t).n_shards()
+        rel_space(t).n_shards() + 1
     }
     fn explore(&self, t: Tier, shard: usize, f: &mut dyn FnMut(&StrCase) -> Verdict) {
         let ms = rel_space(t);
+        if shard == ms.n_shards() {
+            // one token of every kind stretched to the limits of the narrow integer types
+            for n in crate::props::c01::WIDTH_LIMITS {
+                let (a, sp, d) = ("a".repeat(n), " ".repeat(n), "1".repeat(n));
+                for s in [
+                    format!("{}, b", a),
+                    format!("b, {}", a),
+                    format!("a{}, b", sp),
+                    format!("a,{}b", sp),
+                    format!("a (>= {}), b", d),
+                    format!("a (>={}1), b", sp),
+                    format!("a [{}] <{}>, b", a, a),
+                    format!("a | {}:any, b", a),
+                    format!("${{{}}}, b", a),
+                    format!("a,{}b", "\n".repeat(n)),
+                    format!("{} b", "\u{e9}".repeat(n)),
+                    format!("a{}", ",".repeat(n)),
+                ] {
+                    f(&StrCase { s, fresh: false });
+                }
+            }
+            return;
+        }
         let mut case = StrCase { s: String::new(), fresh: false };
         ms.explore(shard, &mut |s, space, _len, _| {
             case.s.clear();
@@ -70,7 +93,7 @@ impl Prop for C09 {
                 if printed != s {
                     out.push(viol(
                         if allow { "relaxed-roundtrip-substvars" } else { "relaxed-roundtrip" },
-                        format!("printed {:?}", printed),
+                        format!("printed {}", crate::strings::brief(&printed)),
                     ));
                 }
                 (out, errs.is_empty())
@@ -97,7 +120,7 @@ impl Prop for C09 {
             }
             if let Ok(r) = &strict {
                 if r.to_string() != s {
-                    out.push(viol("strict-roundtrip", format!("printed {:?}", r.to_string())));
+                    out.push(viol("strict-roundtrip", format!("printed {}", crate::strings::brief(&r.to_string()))));
                 }
             }
             // what the field reader sees as the first entry / first relation of s
@@ -105,7 +128,7 @@ impl Prop for C09 {
             if let Ok(e) = Entry::from_str(s) {
                 let p = e.to_string();
                 if !s.contains(&p) || strict.is_err() {
-                    out.push(viol("entry-reader", format!("printed {:?} strict ok={}", p, strict.is_ok())));
+                    out.push(viol("entry-reader", format!("printed {} strict ok={}", crate::strings::brief(&p), strict.is_ok())));
                 } else if first_entry.as_ref().map(|x| x.to_string()) != Some(p.clone()) {
                     out.push(viol("entry-reader", format!("printed {:?}, but the first entry of the field is {:?}", p, first_entry.as_ref().map(|x| x.to_string()))));
                 }
@@ -114,7 +137,7 @@ impl Prop for C09 {
                 let p = e.to_string();
                 let first_rel = first_entry.as_ref().and_then(|x| x.relations().next()).map(|x| x.to_string());
                 if !s.contains(&p) || strict.is_err() {
-                    out.push(viol("relation-reader", format!("printed {:?} strict ok={}", p, strict.is_ok())));
+                    out.push(viol("relation-reader", format!("printed {} strict ok={}", crate::strings::brief(&p), strict.is_ok())));
                 } else if first_rel != Some(p.clone()) {
                     out.push(viol("relation-reader", format!("printed {:?}, but the first relation of the field is {:?}", p, first_rel)));
                 }
